@@ -3,7 +3,7 @@
    (Compile4.all_funcs: the top-level ones, then the nested ones breadth-first), the entry stub, and
    compile_program_correct_P.  No axioms. *)
 From Coq Require Import ZArith List Bool Lia.
-From NV Require Import Gen.Opcodes Verifier.Effect Src.Syntax Src.Eval Src.EvalLemmas
+From NV Require Import Gen.Opcodes Verifier.Effect Src.Syntax Src.SyntaxDec Src.Eval Src.EvalLemmas
   VM.ValueVM4 Src.Compile4 Src.CompileCorrect4Base Src.CompileCorrect4Rel Src.CompileCorrect4Shape Src.CompileCorrect4.
 Require NV.Src.CompileCorrect.
 Import ListNotations.
@@ -100,10 +100,32 @@ Proof.
     apply seg_entries_bounds in He. lia.
 Qed.
 
+Lemma mem_id_nth : forall (l : list fdef) k fd, nth_error l k = Some fd ->
+  mem_id (fd_name fd) (map fd_name l) = true.
+Proof.
+  induction l as [|g t IH]; intros k fd H; [destruct k; discriminate|].
+  destruct k; simpl in H |- *.
+  - inv H. rewrite N.eqb_refl. reflexivity.
+  - rewrite (IH k fd H). apply orb_true_r.
+Qed.
+
+Lemma nodup_find : forall (l : list fdef), nodup_ids (map fd_name l) = true ->
+  forall k fd, nth_error l k = Some fd -> find_func (fd_name fd) l = Some fd.
+Proof.
+  induction l as [|g t IH]; intros Hn k fd H; [destruct k; discriminate|].
+  simpl in Hn. apply andb_true_iff in Hn. destruct Hn as [Hg Ht]. apply negb_true_iff in Hg.
+  destruct k; simpl in H |- *.
+  - inv H. rewrite N.eqb_refl. reflexivity.
+  - destruct (N.eqb (fd_name fd) (fd_name g)) eqn:E.
+    + apply N.eqb_eq in E. rewrite <- E, (mem_id_nth t k fd H) in Hg. discriminate.
+    + apply IH with (k := k); assumption.
+Qed.
+
 Section Prog.
 Variable p : program.
 Variable args : list Z.
 Hypothesis Hnd : nodup_ids (fnames p) = true.
+Hypothesis Htop : forall k fd, nth_error (all_funcs p) k = Some (KTop, fd) -> In fd (p_funcs p).
 
 Let X := prog_xinfo p args.
 Let G := {| g_genv := global_env (p_funcs p) 0; g_funcs := p_funcs p; g_all := all_funcs p |}.
@@ -159,8 +181,12 @@ Proof.
   unfold seglens, bodies. apply Forall2_app.
   - induction std_tab as [|e t IH]; simpl; constructor; [|exact IH].
     unfold lsum. simpl. unfold std_body. destruct (fst e) as [|[|?]]; simpl; lia.
-  - generalize (fnames p) (tnames p). intros FT0 TL0. induction (all_funcs p) as [|fd t IH]; cbn [map]; constructor; [|exact IH].
-    rewrite lsum_concat. unfold compile_func. rewrite app_length. cbn [length]. reflexivity.
+  - assert (Hgen : forall (l : list (fkind * fdef)) FT0 TL0,
+              Forall2 (fun l0 b => (lsum l0 + 1 = length b)%nat)
+                      (map (fun kf => map (@length rinstr) (fsegs FT0 TL0 kf)) l) (map (compile_func FT0 TL0) l)).
+    { intros l FT0 TL0. induction l as [|fd t IH]; cbn [map]; constructor; [|exact IH].
+      rewrite lsum_concat. unfold compile_func. rewrite app_length. cbn [length]. reflexivity. }
+    apply Hgen.
 Qed.
 
 (* the top-level functions come first *)
@@ -209,11 +235,31 @@ Proof.
     + destruct (IH f (i + 1) k) as (fd & A & B); [rewrite H; f_equal; lia|]. exists fd. auto.
 Qed.
 
+Lemma nodup_ids_app_l : forall l1 l2, nodup_ids (l1 ++ l2) = true -> nodup_ids l1 = true.
+Proof.
+  induction l1 as [|x t IH]; intros l2 H; [reflexivity|]. simpl in H |- *.
+  apply andb_true_iff in H. destruct H as [H1 H2]. apply andb_true_iff. split; [|eapply IH; eauto].
+  apply negb_true_iff in H1. apply negb_true_iff. rewrite mem_id_app' in H1. apply orb_false_iff in H1. tauto.
+Qed.
+
+Lemma top_nodup : nodup_ids (map fd_name (p_funcs p)) = true.
+Proof.
+  unfold fnames, all_funcs in Hnd. cbn [levels] in Hnd.
+  destruct (p_funcs p) as [|f0 t] eqn:E; [reflexivity|]. rewrite <- E in *.
+  destruct (map (fun fd : fdef => (KTop, fd)) (p_funcs p)) as [|x l] eqn:Em; [rewrite E in Em; discriminate Em|].
+  rewrite <- Em in Hnd. rewrite map_app, map_map in Hnd. cbn [snd] in Hnd.
+  eapply nodup_ids_app_l. exact Hnd.
+Qed.
+
 Lemma prog_ok_image : prog_ok X G prog.
 Proof.
   constructor.
   - unfold faddr. apply (body_at 13). reflexivity.
   - intros k fd H. apply all_funcs_top. exact H.
+  - intros k fd H. destruct (In_nth_error _ _ (Htop k fd H)) as (k' & Hk').
+    pose proof (fidx_named k KTop fd H) as E1. pose proof (fidx_named k' KTop fd (all_funcs_top k' fd Hk')) as E2.
+    rewrite E1 in E2. assert (k = k') by lia. subst k'. exact Hk'.
+  - intros k fd H. apply (nodup_find (p_funcs p) top_nodup k fd H).
   - intros f kidx fd H Hp. destruct (fpos_nth _ _ _ _ Hp) as (fd' & A & B). cbn [G g_funcs] in H, A.
     assert (fd' = fd) by congruence. subst fd'. rewrite <- B.
     apply (fidx_named kidx KTop fd). apply all_funcs_top. exact H.
@@ -295,27 +341,6 @@ Proof.
   destruct (N.eqb f (fd_name g)); eauto.
 Qed.
 
-Lemma mem_id_nth : forall (l : list fdef) k fd, nth_error l k = Some fd ->
-  mem_id (fd_name fd) (map fd_name l) = true.
-Proof.
-  induction l as [|g t IH]; intros k fd H; [destruct k; discriminate|].
-  destruct k; simpl in H |- *.
-  - inv H. rewrite N.eqb_refl. reflexivity.
-  - rewrite (IH k fd H). apply orb_true_r.
-Qed.
-
-Lemma nodup_find : forall (l : list fdef), nodup_ids (map fd_name l) = true ->
-  forall k fd, nth_error l k = Some fd -> find_func (fd_name fd) l = Some fd.
-Proof.
-  induction l as [|g t IH]; intros Hn k fd H; [destruct k; discriminate|].
-  simpl in Hn. apply andb_true_iff in Hn. destruct Hn as [Hg Ht]. apply negb_true_iff in Hg.
-  destruct k; simpl in H |- *.
-  - inv H. rewrite N.eqb_refl. reflexivity.
-  - destruct (N.eqb (fd_name fd) (fd_name g)) eqn:E.
-    + apply N.eqb_eq in E. rewrite <- E, (mem_id_nth t k fd H) in Hg. discriminate.
-    + apply IH with (k := k); assumption.
-Qed.
-
 (* ---- single steps of the entry stub ---------------------------------------------------------------- *)
 
 Lemma step_push_param : forall X prog ip stk h o fr,
@@ -345,7 +370,7 @@ Proof. intros. unfold step. simpl. rewrite H. reflexivity. Qed.
 (* ---- the state of both sides when the entry function is entered ------------------------------------ *)
 
 Definition entry_morph (funcs : list fdef) (n : nat) : morph :=
-  {| mm := map MF funcs ++ map MA (rev (seq 0 n)); mv := [] |}.
+  {| mm := map MF funcs ++ map MA (rev (seq 0 n)); mv := []; mf := [] |}.
 
 Lemma entry_morph_ma : forall funcs n c a, mget (entry_morph funcs n) c = Some (MA a) ->
   exists i, c = (length funcs + i)%nat /\ (i < n)%nat /\ a = (n - 1 - i)%nat.
@@ -380,7 +405,7 @@ Proof.
   - unfold entry_morph. cbn [mm]. rewrite !app_length, !map_length, rev_length, seq_length. reflexivity.
   - intros c a H. apply entry_morph_ma in H. destruct H as (i & -> & Hi & ->).
     destruct (nth_error args i) as [z|] eqn:E; [|apply nth_error_None in E; unfold n in Hi; lia].
-    exists (CInt (wrap32 z)), (HInt (wrap32 z)). split; [|split; [|reflexivity]].
+    exists (CInt (wrap32 z)), (HInt (wrap32 z)). split; [|split; [|split; [reflexivity | intros fd cenv E0; discriminate E0]]].
     + rewrite nth_error_app2 by (rewrite map_length; lia). rewrite map_length.
       replace (length funcs + i - length funcs)%nat with i by lia. rewrite nth_error_map, E. reflexivity.
     + rewrite nth_error_app1 by (rewrite rev_length, map_length; fold n; lia).
@@ -392,6 +417,8 @@ Proof.
     rewrite nth_error_app1 by (rewrite map_length; apply nth_error_Some; congruence).
     rewrite nth_error_map, H. reflexivity.
   - intros v l0 [].
+  - intros c fd cenv [].
+  - intros c fd cenv k [].
 Qed.
 
 (* ---- compile_program_correct_P ------------------------------------------------------------ *)
@@ -417,10 +444,13 @@ Lemma HP_parts :
                      | _ => negb (is_fname (prog_sigs p) (fd_name (snd kf))) &&
                             forallb (fun x => negb (is_fname (prog_sigs p) x)) (fvs_fd (tnames p) (snd kf))
                      end) (all_funcs p) = true /\
-  nodup_ids (fnames p) = true /\ mem_id (p_main p) (tnames p) = true.
+  nodup_ids (fnames p) = true /\ mem_id (p_main p) (tnames p) = true /\
+  (forall k fd, nth_error (all_funcs p) k = Some (KTop, fd) -> In fd (p_funcs p)).
 Proof.
-  unfold prog_in_P in HP. apply andb_true_iff in HP. destruct HP as [H H4].
-  apply andb_true_iff in H. destruct H as [H H3]. apply andb_true_iff in H. destruct H as [H1 H2]. auto.
+  unfold prog_in_P in HP. apply andb_true_iff in HP. destruct HP as [H H5]. apply andb_true_iff in H. destruct H as [H H4].
+  apply andb_true_iff in H. destruct H as [H H3]. apply andb_true_iff in H. destruct H as [H1 H2].
+  repeat split; auto. intros k fd Hk. rewrite forallb_forall in H5. specialize (H5 _ (nth_error_In _ _ Hk)).
+  cbn [fst snd] in H5. destruct (in_dec SyntaxDec.fdef_eq_dec fd (p_funcs p)); [assumption | discriminate].
 Qed.
 
 Lemma funcs_okP : forall kidx kf, nth_error (g_all G) kidx = Some kf ->
@@ -428,7 +458,7 @@ Lemma funcs_okP : forall kidx kf, nth_error (g_all G) kidx = Some kf ->
   (fst kf <> KTop -> is_fname (g_sigs G) (fd_name (snd kf)) = false /\
                      forallb (fun x => negb (is_fname (g_sigs G) x)) (fvs_fd (g_tl G) (snd kf)) = true).
 Proof.
-  intros kidx kf H. destruct HP_parts as (H1 & H2 & _ & _). apply nth_error_In in H. cbn [G g_all] in H.
+  intros kidx kf H. destruct HP_parts as (H1 & H2 & _ & _ & _). apply nth_error_In in H. cbn [G g_all] in H.
   rewrite forallb_forall in H1, H2. split; [exact (H1 kf H)|].
   intros Hk. specialize (H2 kf H). destruct (fst kf); [congruence | |];
     apply andb_true_iff in H2; destruct H2 as [A B]; apply negb_true_iff in A; auto.
@@ -461,7 +491,7 @@ Proof.
   rewrite map_length. fold nf. fold n.
   set (st1 := {| cells := map (fun f => CFun f []) (p_funcs p) ++ map (fun z => CInt (wrap32 z)) args;
                  arrs := []; recs := []; out := [] |}).
-  destruct HP_parts as (_ & _ & Hnd & Hmain).
+  destruct HP_parts as (_ & _ & Hnd & Hmain & Htop).
   destruct (mem_find_func _ _ Hmain) as (fd & Hfind).
   destruct (find_func_pos _ _ _ Hfind) as (kidx & Hk & Hlook & Hpos).
   rewrite Hlook. cbn [Nat.add].
@@ -501,7 +531,7 @@ Proof.
   set (h' := (h0 ++ [HVec []]) ++ [HFun (length h0) (main_addr p)]).
   set (F := {| f_ret := retL; f_fp := 0; f_gp := 0; f_below := glob; f_exc := None |}).
   set (frc := {| r_fp := 0; r_gp := length h0; r_exc := None; r_frames := [F] |}).
-  pose proof (prog_ok_image p args Hnd) as Hpo. fold X G prog in Hpo.
+  pose proof (prog_ok_image p args Hnd Htop) as Hpo. fold X G prog in Hpo.
   pose proof (po_top _ _ _ Hpo kidx fd Hk) as Hkall.
   assert (Hmaddr : main_addr p = faddr X (nstd + kidx)).
   { pose proof (po_fidx _ _ _ Hpo (p_main p) kidx fd Hk (Hpos 0)) as Hx. unfold Compile4.fidx in Hx.
@@ -548,7 +578,7 @@ Proof.
   rewrite <- Hmaddr in Hrun. fold frc in Hrun. unfold act_done in Hrun. cbn [F f_ret f_fp f_gp f_below f_exc] in Hrun.
   destruct r as [c|ex| |]; try exact I.
   - destruct Hrun as (h2 & o2 & m2 & a & Hst2 & Hm2 & HMS2 & _ & Ho2).
-    destruct (ms_rel _ _ _ _ _ _ _ HMS2 c a Hm2) as (v & hc & Hcv & Hhz & Hv).
+    destruct (ms_rel _ _ _ _ _ _ _ HMS2 c a Hm2) as (v & hc & Hcv & Hhz & Hv & _).
     unfold get_cell. rewrite Hcv. intros Hiv.
     destruct (cell_rel_intv _ _ _ _ _ _ _ Hv ltac:(destruct v; try discriminate Hiv; exact I)) as (z & -> & Hvz).
     assert (Hfin : run X prog 2 (mkst retL (a :: glob) h2 o2 {| r_fp := 0; r_gp := 0; r_exc := None; r_frames := [] |})
